@@ -128,6 +128,13 @@ reg('C19', 'harness.validate', design_ref='6/C19',
     stubs=[], assumptions=['keyword names are concrete (a symbolic name would be unsound here, DESIGN.md 6/C19)', 'argument values are atoms: the verdict must not depend on them',
                             'every input is a finite structural choice, so one path is close to one concrete call form; the solver contributes the closure certificate and the counterexample'],
     expect_labels=['C19:agree', 'C19:validate', 'C19:never-called'])
+reg('C13', 'harness.crash', design_ref='6/C13',
+    bounds={'quick': 'file(pickle/json), dir(pickle/json/fast), sqltable(db file) archives with 2 prior entries; one operation from {set new key, overwrite, setdefault, update of 2 keys, del, pop, clear, cache.dump of 2 entries, re-open, re-open with a seeding dict}; the crash index is a symbolic Int over every mutating system call of the operation (create/truncate, each write chunk, close, mkdir, rename, unlink, rmdir); then a fresh handle runs len/keys/items/getitem/cache.load',
+            'thorough': 'prior store of 0, 1 or 2 entries (symbolic)'},
+    outside='power loss / un-synced data (kill -9 semantics: completed system calls persist); crashes inside a sqlite call (journal recovery is sqlite C code) - sqlite crash points are between the real execute/commit calls; serialized=False, compression/memmap internals, HDF; more than one operation per run',
+    stubs=[], assumptions=['values are atoms; keys are the concrete a, b, c', 'multi-chunk writes: the serializer stub issues a header and a body chunk so that a prefix can be on disk'],
+    expect_labels=['C13:old-or-new', 'C13:untouched', 'C13:len', 'C13:load'])
+REGISTRY['C13']['stubs'] = _arch_stubs() + ['crash = freeze of the model at a symbolic system-call index (BaseException at every later syscall of the dying writer)']
 
 _T = 'bounded symbolic execution of the real code (ksym proxies on CPython), branch and obligation queries decided by z3, closed path tree, concrete replay of counterexamples'
 _N = 'trusted: CPython, z3 5.1, the ksym proxies (constant hash + solver-decided equality) and the listed stubs; atoms stand for arbitrary hashable non-fast-type objects; bounds as in evidence.coverage.bounds; no claim outside them'
@@ -149,9 +156,10 @@ TEXT = {
     'C18': {'level': 'within the history bounds, key()/lookup() agree with what calls store, evaluate nothing, change nothing, and a twin that was never probed is indistinguishable afterwards', 'note': _N, 'technique': _T},
     'C20': {'level': 'within the bounds, the clone obtained through the real dill equals the original (contents, statistics, configuration), is independent in memory, and every later observable equals that of a never-pickled twin', 'note': _N, 'technique': _T},
     'C19': {'level': 'for every program in the family and every call form within the bound, isvalid/validate agree with the outcome of binding the same call on a stub with the same signature, and the function is never called (closed enumeration of a finite structural space through symbolic selectors)', 'note': _N, 'technique': _T},
+    'C13': {'level': 'for every crash point of every operation in the bound (symbolic crash index decided by z3, exploration closed), a fresh handle reads without error, sees old-or-new for touched keys, unchanged untouched keys and no never-stored key; counterexamples are confirmed by killing a real writer process at every mutating os call on a real file system', 'note': _N, 'technique': _T},
     'C15': {'level': 'within the history bounds (calls interleaved with dump/load/clear/toggle), info() equals ground-truth counters derived from before/after snapshots of memory and archive', 'note': _N, 'technique': _T},
 }
 NOT_APPLICABLE = [
     {'property_id': p, 'reason': 'check not built yet in this session (planned in DESIGN.md §6); nothing is claimed for it so far'}
-    for p in ['C13', 'C14']
+    for p in ['C14']
 ]
